@@ -12,7 +12,7 @@
       [nk; nid; label; verdict under the given typing; first reason; member of the refined typing] *)
 From Coq Require Import List Ascii String ZArith NArith Bool.
 From Shexer Require Import Lib.PyStr Spec.Rdf Spec.ShexSem Model.Table Model.EntryPipe.
-From Shexer Require Import Lib.Dict Gen.Consts Model.Freq Model.FreqInst Model.Shexing Model.Run Model.SchemaOf Model.C03Dom.
+From Shexer Require Import Lib.Dict Gen.Consts Model.Freq Model.FreqInst Model.Shexing Model.Run Model.RunCur Model.SchemaOf Model.C03Dom.
 Import ListNotations.
 
 Definition ve_of_row (r : list str) : vexpr :=
@@ -92,7 +92,8 @@ Definition c03_validate (t : table) : table :=
 (** ** the model's own output seen through [schema_of] (ties the [schema_of]
     used by the theorems of Props/C03.v to the ShExC text the correspondence
     compares): input = a pipe table, output = the "S"/"C" rows of the schema
-    of [run_shapes], or ["err"] *)
+    of [RunCur.run_shapes_cur] (= [Run.run_shapes] with the shexing stage in the
+    order the code has), or ["err"] *)
 
 Definition ve_row (v : vexpr) : list str :=
   match v with
@@ -117,7 +118,7 @@ Definition schema_rows (Sc : schema) : table :=
                   (snd ls)) Sc.
 
 Definition c03_model_schema (t : table) : table :=
-  match run_shapes BAlg (rcfg_of t) (thr_of t) (graph_of t) with
+  match run_shapes_cur BAlg (rcfg_of t) (thr_of t) (graph_of t) with
   | inl (_, shapes) =>
     if has_choice shapes then [[Str "err"; Str "choice"]]
     else [Str "ok"] :: schema_rows (schema_of (r_tau (rcfg_of t)) shapes)
@@ -126,7 +127,7 @@ Definition c03_model_schema (t : table) : table :=
 
 (** the model's schema judged by the spec validator on the instance typing of the graph *)
 Definition c03_model_valid (t : table) : table :=
-  match run_shapes BAlg (rcfg_of t) (thr_of t) (graph_of t) with
+  match run_shapes_cur BAlg (rcfg_of t) (thr_of t) (graph_of t) with
   | inl (_, shapes) =>
     let c := rcfg_of t in
     [[Str "ok"; bstr (valid_typingb (schema_of (r_tau c) shapes) (graph_of t)
